@@ -488,9 +488,37 @@ CONTRACTS.update({
     "TensorF.fiber_name": dict(params=["self"], returns="str", assumed=True, pure=True),
     "TensorF.get_ranks": dict(params=["self"], returns="List[str]", assumed=True, pure=True, fresh_result=True),
     "TensorF.from_fiber": dict(params=["self"], returns="None", assumed=True, modifies=[]),
-    "FlowGraph.__build_swizzle_root_fiber": dict(params=["self", "tensor", "static"], returns="None", assumed=True,
-                                                 modifies=["self.graph.g_edges[]"],
-                                                 ensures=["all(e in self.graph.g_edges for e in old(self.graph.g_edges))"]),
+    # swizzle to the loop order, take the root, name its fiber: TensorNode -> SwizzleNode -> GetRootNode -> FiberNode(first
+    # fiber), every current rank of the tensor before the swizzle, and (static case) the swizzle before the graphics
+    "FlowGraph.__build_swizzle_root_fiber": dict(
+        kinds={"tensor": "TensorF"},
+        modifies=["self.graph.g_edges[]"],
+        local_kinds={"swizzle_node": "Node", "get_root_node": "Node", "fiber_node": "Node", "tensor_node": "Node"},
+        ensures_env="exit", caller_ensures=["nothing_removed"],
+        ensures=[
+            ("swizzle_root_fiber_chain",
+             "(tensor_node, swizzle_node) in self.graph.g_edges and (swizzle_node, get_root_node) in self.graph.g_edges and "
+             "(get_root_node, fiber_node) in self.graph.g_edges and tensor_node == TensorNode(root) and root == tensor.root_name() and "
+             "isinstance(swizzle_node, SwizzleNode) and cast(SwizzleNode, swizzle_node).tensor == root and "
+             "cast(SwizzleNode, swizzle_node).type_ == 'loop-order' and "
+             "isinstance(get_root_node, GetRootNode) and cast(GetRootNode, get_root_node).tensor == root and "
+             "isinstance(fiber_node, FiberNode)"),
+            ("static_swizzle_before_graphics", "implies(static, (swizzle_node, OtherNode('Graphics')) in self.graph.g_edges)"),
+            ("nothing_removed", "all(e in self.graph.g_edges for e in old(self.graph.g_edges))"),
+        ],
+        loops={
+            0: dict(idx="k0", enum="cur", modifies=["self.graph.g_edges[]"],
+                    inv=[("mono", "all(e in self.graph.g_edges for e in old(self.graph.g_edges))"),
+                         ("chain", "(tensor_node, swizzle_node) in self.graph.g_edges and (swizzle_node, get_root_node) in self.graph.g_edges "
+                                   "and (get_root_node, fiber_node) in self.graph.g_edges"),
+                         ("ranks_before_swizzle", "all((RankNode(root, cur[j]), swizzle_node) in self.graph.g_edges for j in range(k0))")]),
+            1: dict(idx="k1", modifies=["self.graph.g_edges[]"],
+                    inv=[("mono1", "all(e in self.graph.g_edges for e in old(self.graph.g_edges))"),
+                         ("chain1", "(tensor_node, swizzle_node) in self.graph.g_edges and (swizzle_node, get_root_node) in self.graph.g_edges "
+                                    "and (get_root_node, fiber_node) in self.graph.g_edges"),
+                         ("static1", "implies(static, (swizzle_node, OtherNode('Graphics')) in self.graph.g_edges)")]),
+        },
+    ),
     # the output: Output -> TensorNode -> GetRootNode -> its first fiber
     "FlowGraph.__build_output": dict(
         modifies=["self.graph.g_edges[]"],
